@@ -74,6 +74,11 @@ func ParseFloat(b []byte) (float64, int) {
 			i = startExp
 		}
 	}
+	if expExp < -1<<40 {
+		expExp = -1 << 40 // any such exponent gives zero, and the difference below must not wrap around
+	} else if 1<<40 < expExp {
+		expExp = 1 << 40
+	}
 	exp := expExp - mantExp
 
 	// copied from strconv/atof.go
